@@ -70,7 +70,14 @@ impl DSSEParser for PaeV1 {
 
         // Extract payload_ver from bytes
         let (payload_ver_len, raw) = consume_load_len(raw)?;
-        let payload_ver = str::from_utf8(&raw[0..payload_ver_len])?
+        let payload_ver_raw = raw.get(0..payload_ver_len).ok_or_else(|| {
+            Error::PAEParseFailed(format!(
+                "payload type length {} exceeds the remaining {} bytes",
+                payload_ver_len,
+                raw.len()
+            ))
+        })?;
+        let payload_ver = str::from_utf8(payload_ver_raw)?
             .parse::<String>()
             .map_err(|_| {
                 Error::PAEParseFailed(format!(
@@ -80,9 +87,26 @@ impl DSSEParser for PaeV1 {
             })?;
 
         // Extract payload from bytes
-        let (payload_len, raw) =
-            consume_load_len(&raw[(payload_ver_len + 1)..])?;
-        let payload = raw[0..payload_len].to_vec();
+        let raw = match raw.get(payload_ver_len) {
+            Some(&SPLIT_U8) => &raw[(payload_ver_len + 1)..],
+            _ => {
+                return Err(Error::PAEParseFailed(format!(
+                    "no '{}' after the payload type in {:?}",
+                    SPLIT, raw
+                )))
+            }
+        };
+        let (payload_len, raw) = consume_load_len(raw)?;
+        let payload = raw
+            .get(0..payload_len)
+            .ok_or_else(|| {
+                Error::PAEParseFailed(format!(
+                    "payload length {} exceeds the remaining {} bytes",
+                    payload_len,
+                    raw.len()
+                ))
+            })?
+            .to_vec();
 
         Ok((payload, payload_ver))
     }
